@@ -11,6 +11,7 @@ package heterosim
 import (
 	"bytes"
 	"fmt"
+	"os"
 
 	"go.dedis.ch/kyber/v4"
 	"go.dedis.ch/kyber/v4/group/edwards25519"
@@ -68,7 +69,7 @@ func backends() []backend {
 }
 
 func (Engine) RunOne(t *core.Tape, prop, tier string, info *core.RunInfo) *core.Violation {
-	if t.Bool("prog.pick", 350) {
+	if t.Bool("prog.pick", 350) || os.Getenv("VERIF_PROG_FAMILY") != "" {
 		return runProgram(t, info)
 	}
 	if t.Bool("cfg.kind", 300) {
